@@ -87,6 +87,14 @@ let handle (ext : SS.t list -> SS.t option) line =
   | ["SI"; fmt; pdu] -> show (s_init (coq_string fmt) (buf_of_hex pdu))
   | ["SX"; first; width; pdu] -> show (RVal (spec_extract (buf_of_hex pdu) (n_of_hex first) (n_of_hex width)))
   | ["SN"; first; width; pdu; v] -> show (RBuf (Some (spec_insert (buf_of_hex pdu) (n_of_hex first) (n_of_hex width) (n_of_hex v))))
+  | ["L"; name; pdu; a; b; r] ->
+      let res = if r = "-" || r = "x" then None else Some (n_of_hex r) in
+      (match m_legacy (coq_string name) (pdu_of pdu) [N0; n_of_hex a; n_of_hex b] res with
+       | LR (ok, p, x) ->
+           Printf.sprintf "R %s %s %s" (if ok then "0" else "E")
+             (match p with None -> "-" | Some bb -> hex_of_buf bb)
+             (match x with None -> r | Some v -> hex_of_n v)
+       | LOob -> "OOB" | LUnmod -> "UNMOD" | LNoSuch -> "NOSUCH")
   | ["H"; br; k; w; x] -> show (m_helper (br = "BE") (kind_of k) (width_of w) (n_of_hex x))
   | _ -> (match ext t with Some r -> r | None -> "BADCMD")
 
@@ -123,7 +131,15 @@ let dump_views () =
     List.iter (fun (f, n) -> Printf.printf " %s:%s" (ocaml_string f) (ocaml_string n)) g;
     print_newline ()) view_groups
 
+let dump_legacy () =
+  List.iter (fun a ->
+    Printf.printf "API %s %s %s %s %s\n" (ocaml_string a.la_fmt) (ocaml_string a.la_get) (ocaml_string a.la_set)
+      (nz (ocaml_string a.la_init)) (nz (ocaml_string a.la_init_field));
+    List.iter (fun (o, n) -> Printf.printf "ALIAS %s %s %s\n" (ocaml_string a.la_fmt) (ocaml_string o) (ocaml_string n)) a.la_aliases)
+    legacy_api
+
 let () =
+  if Array.length Sys.argv > 1 && Sys.argv.(1) = "--dump-legacy" then (dump_legacy (); exit 0);
   if Array.length Sys.argv > 1 && Sys.argv.(1) = "--dump-spec" then (dump_spec (); exit 0);
   if Array.length Sys.argv > 1 && Sys.argv.(1) = "--dump-views" then (dump_views (); exit 0);
   let ext = Driver_ext.handle in
